@@ -24,6 +24,11 @@ interleaving semantics of `Model/Lockset.lean` (exclusive locks):
   (`Generated/C36.lean`); `table_violations_flat`, `C36_partial`, `C36_counterexamples`,
   `C36_full_iff` instantiate the general theorems on it.
 
+* `lock_order_no_deadlock`, `no_deadlock_of_edges`, `lockOrderAcyclic_no_cycle` : a lock order (rank
+  certificate for the extracted graph "l2 is acquired while l1 is held") excludes deadlock: whenever
+  some thread has not finished, some thread can step.  `table_lock_order`, `C36_no_deadlock` decide
+  and instantiate it on the extracted edge list.
+
 Trusted: that the extracted table over-approximates the accesses and under-approximates the
 locks held by the real threads (extractor soundness), see notes/C36.md.
 -/
@@ -181,6 +186,39 @@ theorem violation_realisable {multi : List Role} {T : List Row} (hn : locksNodup
         1 a.field b.kind := ⟨[], f1⟩
     exact ⟨_, r1.trans r2, at0, at1, hkind, ⟨0, 1, a.field, a.kind, b.kind, by decide, at0, at1, hkind⟩⟩
 
+/-! ### lock order: no deadlock -/
+
+/-- Deadlock freedom from a lock order: if every thread acquires locks only in increasing rank
+    (ranks bounded, acquisitions bracketed), then in every reachable state in which some thread has
+    not finished, some thread can take a step — for any number of threads and any schedule. -/
+theorem lock_order_no_deadlock {rank : Lock → Nat} {B : Nat} {s0 s : State}
+    (ho : ∀ t, Ordered rank B (s0.held t) (s0.prog t)) (hr : Reach s0 s)
+    (hne : ∃ t, s.prog t ≠ []) : ∃ s', Step s s' := by
+  have hoa : OrderedAll rank B s := OrderedAll.reach (s0 := s0) ho hr
+  obtain ⟨t, ht⟩ := hne
+  cases hp : s.prog t with
+  | nil => exact absurd hp ht
+  | cons e rest =>
+    cases e with
+    | acq l => exact blocked_progress hoa (B - rank l) t l rest (Nat.le_refl _) hp
+    | rel l => exact ⟨_, Step.rel hp⟩
+    | access f k => exact ⟨_, Step.access hp⟩
+
+/-- the rank certificate really is an acyclicity proof: no lock reaches itself along the edges -/
+theorem lockOrderAcyclic_no_cycle {ranks : List Nat} {edges : List (Lock × Lock)}
+    (hk : lockOrderAcyclic ranks edges = true) (l : Lock) : ¬ OrderPath edges l l := by
+  intro hp
+  exact Nat.lt_irrefl _ (rank_lt_of_path hk hp)
+
+/-- Deadlock freedom from the extracted lock-order graph: threads that acquire a lock only while
+    holding locks from which the graph has an edge to it cannot deadlock if the graph passes the
+    decidable acyclicity check. -/
+theorem no_deadlock_of_edges {ranks : List Nat} {edges : List (Lock × Lock)} {s0 s : State}
+    (hk : lockOrderAcyclic ranks edges = true)
+    (hf : ∀ t, FollowsOrder edges (s0.held t) (s0.prog t)) (hr : Reach s0 s)
+    (hne : ∃ t, s.prog t ≠ []) : ∃ s', Step s s' :=
+  lock_order_no_deadlock (fun t => ordered_of_followsOrder hk _ _ (hf t)) hr hne
+
 /-! ### the table extracted from the current sources -/
 
 /-- the access table of the working tree (regenerated on every run; emitted grouped by location) -/
@@ -224,7 +262,26 @@ theorem C36_full_iff : Premise Gen.C36.multi table ↔ Gen.C36.expectedViolation
   rw [← table_violations, violationsG_nil_iff table_keys]
   exact premise_iff.symm
 
+/-- the lock-order graph extracted from the current sources is acyclic -/
+theorem table_lock_order : lockOrderAcyclic Gen.C36.lockRanks Gen.C36.lockEdges = true := by
+  decide +kernel
+
+/-- hence no set of threads that nest their lock acquisitions as the sources do can deadlock -/
+theorem C36_no_deadlock {s0 s : State}
+    (hf : ∀ t, FollowsOrder Gen.C36.lockEdges (s0.held t) (s0.prog t)) (hr : Reach s0 s)
+    (hne : ∃ t, s.prog t ≠ []) : ∃ s', Step s s' :=
+  no_deadlock_of_edges table_lock_order hf hr hne
+
 /-! ### non-vacuity -/
+
+/-- lock order: two threads nesting lock 1 inside lock 0 follow the edge list `[(0, 1)]`, which is
+    acyclic; the opposite nesting in one of them would need the edge `(1, 0)` and fail the check -/
+example : lockOrderAcyclic [0, 1] [(0, 1)] = true ∧ lockOrderAcyclic [0, 1] [(0, 1), (1, 0)] = false ∧
+    FollowsOrder [(0, 1)] [] [Event.acq 0, Event.acq 1, Event.access 3 Kind.W, Event.rel 1, Event.rel 0] := by
+  refine ⟨by decide, by decide, ?_⟩
+  simp [FollowsOrder]
+
+
 
 /-- a table with a common lock on the written location, and a system of one writer and two
     readers (plus idle threads) following it -/
